@@ -1,8 +1,40 @@
 import PybtexModel.Drv.Json
+import PybtexModel.Model.Names
+import PybtexModel.Spec.Names
 open Lean
 namespace Pybtex.Drv.C04
 
-/-- driver ops of this property: (op name, handler) -/
-def handlers : List (String × (Json → Except String Json)) := []
+def personJ (p : Person) : Json :=
+  obj [("first", strs p.first), ("middle", strs p.middle), ("prelast", strs p.prelast),
+       ("last", strs p.last), ("lineage", strs p.lineage), ("bibtex_first", strs p.bibtexFirst),
+       ("str", strToJson p.toStr)]
+
+def errName : NameErr → String
+  | .tooDeep => "BibTeXError"
+  | .indexError => "INTERNAL:IndexError"
+  | .valueError => "INTERNAL:ValueError"
+
+def resJ : Except NameErr (Person × Bool) → Json
+  | .error e => obj [("error", Json.str (errName e))]
+  | .ok (p, r) => obj [("person", personJ p), ("too_many_commas", Json.bool r)]
+
+/-- `Person(s)` -/
+def person (j : Json) : Except String Json := do
+  let s ← getStr j "s"
+  let tokens := splitTex .space (strip s)
+  let parts := splitTex .comma (strip s)
+  pure (obj [("out", resJ (mkPerson s [] [] [] [] [])),
+             ("spec", obj [("person", if strip s = [] then personJ {} else personJ (Spec.split (strip s)).1),
+                           ("too_many_commas", Json.bool (if strip s = [] then false else (Spec.split (strip s)).2)),
+                           ("tokens", strs tokens), ("comma_parts", strs parts),
+                           ("part_tokens", arr ((if parts.length > 3 then parts.take 2 ++ [joinWith [' '] (parts.drop 2)] else parts).map
+                              fun p => strs (splitTex .space p)))])])
+
+/-- `Person(first=…, middle=…, prelast=…, last=…, lineage=…)` -/
+def personParts (j : Json) : Except String Json := do
+  pure (obj [("out", resJ (mkPerson (← getStr j "s") (← getStr j "first") (← getStr j "middle")
+        (← getStr j "prelast") (← getStr j "last") (← getStr j "lineage")))])
+
+def handlers : List (String × (Json → Except String Json)) := [("person", person), ("personparts", personParts)]
 
 end Pybtex.Drv.C04
